@@ -400,3 +400,145 @@ func forwardedMethod(fn *ssa.Function) *ssa.Function {
 	}
 	return callee
 }
+
+// switchOwner: the observer's two switches (delivery: closed, end: endClosed) are thrown only by the stream's close.
+// An observer object outlives a stream end — reopenStream reuses it — so a switch thrown anywhere else silently drops
+// every later event (or end) of that vBucket.
+func switchOwner(c *Ctx, id string) {
+	w := c.W
+	oi := observerInfo(c, id)
+	pkg := strings.TrimPrefix(strings.TrimPrefix(oi.typ.Obj().Pkg().Path(), modPath), "/")
+	streamClose := w.Method("stream", "stream", "Close")
+	c.need(streamClose != nil, id, "stream.stream.Close")
+	closeUnit := w.syncCallees(streamClose, 2, true) // Stream.Close with its synchronous helpers
+	closeUnit[streamClose] = true
+	for _, sw := range []struct{ method, field, what string }{{"Close", oi.fClosed, "delivery"}, {"CloseEnd", oi.fEndClosed, "end"}} {
+		m := w.Method(pkg, oi.typ.Obj().Name(), sw.method)
+		if m == nil {
+			c.Undecided(id, "switch-owner|"+sw.what, 0, "observer.%s not found", sw.method)
+			continue
+		}
+		c.see(m)
+		// writers of the flag
+		var badW []string
+		nW := 0
+		for _, fn := range w.ModFuncs {
+			allInstrs(fn, func(in ssa.Instruction) {
+				f, _, val := flagWrite(in)
+				if f == nil || f.Name() != sw.field || f.Pkg() != oi.typ.Obj().Pkg() {
+					return
+				}
+				if st := oi.typ.Underlying().(*types.Struct); !hasField(st, f) {
+					return
+				}
+				nW++
+				if rootFn(fn) != m {
+					badW = append(badW, fname(fn)+" ← "+w.Origin(val)+" @"+w.pos(in.Pos()))
+				}
+			})
+		}
+		// callers of the method (static, or through the Observer interface)
+		var badC []string
+		nC := 0
+		for _, fn := range w.ModFuncs {
+			allInstrs(fn, func(in ssa.Instruction) {
+				cc := callOf(in)
+				if cc == nil {
+					return
+				}
+				hit := cc.StaticCallee() == m
+				if cc.IsInvoke() && cc.Method.Name() == sw.method && types.Implements(types.NewPointer(oi.typ), ifaceOf(cc.Value.Type())) && strings.HasSuffix(types.TypeString(cc.Value.Type(), nil), "Observer") {
+					hit = true
+				}
+				if !hit {
+					return
+				}
+				nC++
+				if !closeUnit[rootFn(fn)] {
+					badC = append(badC, fname(fn)+" @"+w.pos(in.Pos()))
+				}
+			})
+		}
+		// a method value / bound method escaping would be a caller we cannot see
+		for _, u := range w.usesAsValue(m) {
+			badC = append(badC, "used as a value @"+w.pos(u.Pos()))
+		}
+		sort.Strings(badW)
+		sort.Strings(badC)
+		c.Check(len(badW) == 0 && len(badC) == 0 && nW >= 1 && nC >= 1, id, "switch-owner|"+sw.what, m.Pos(),
+			fmt.Sprintf("the %s switch (%s) is written only by Observer.%s (%d writes), which is called only from Stream.Close (%d calls)", sw.what, sw.field, sw.method, nW, nC),
+			fmt.Sprintf("the %s switch of an observer that reopen reuses is thrown outside the stream's close (writes elsewhere: [%s]; calls elsewhere: [%s]; %d writes, %d calls): every later event of that vBucket is dropped", sw.what, strings.Join(badW, ", "), strings.Join(badC, ", "), nW, nC))
+	}
+}
+
+func hasField(st *types.Struct, f *types.Var) bool {
+	for i := 0; i < st.NumFields(); i++ {
+		if st.Field(i) == f {
+			return true
+		}
+	}
+	return false
+}
+
+func ifaceOf(t types.Type) *types.Interface {
+	if i, ok := t.Underlying().(*types.Interface); ok {
+		return i
+	}
+	return types.NewInterfaceType(nil, nil)
+}
+
+// markerInstall: the handlers that announce a snapshot (SnapshotMarker, SeqNoAdvanced — found as the handlers that
+// assign observer.currentSnapshot) install it under exactly the gate: installed (and handed to the deliver function
+// once) ⇔ canForward, whatever else the observer's state says. In particular a marker arriving while the delivery
+// switch is off is still tracked: the items that race with the close are then dropped by the switch instead of
+// tripping the fail-stop membership check (a crash inside Close).
+func markerInstall(c *Ctx, id string) {
+	w := c.W
+	oi := observerInfo(c, id)
+	f := w.Field("couchbase", oi.typ.Obj().Name(), "currentSnapshot")
+	c.need(f != nil, id, "observer.currentSnapshot")
+	n := 0
+	for _, name := range sortedKeys(oi.handlers) {
+		h := oi.handlers[name]
+		stores := false
+		allInstrs(h, func(in ssa.Instruction) {
+			if st, ok := in.(*ssa.Store); ok && fieldOfAddr(st.Addr) == f {
+				stores = true
+			}
+		})
+		if !stores {
+			continue
+		}
+		n++
+		recv := h.Params[0].Name()
+		hs := &Harness{
+			Fn:       h,
+			Bools:    []string{"fwd"},
+			NoInline: map[string]bool{fname(oi.gate): true, fname(oi.deliver): true},
+			Quiet:    quietLog,
+			Oracle: func(st *State, fn string, args []AV, res *types.Tuple) ([]AV, bool) {
+				if fn == fname(oi.gate) {
+					return []AV{avBool{st.B("fwd")}}, true
+				}
+				return nil, false
+			},
+		}
+		c.oae(id, "marker-install:"+name, h.Pos(), hs, func(st *State, out *Outcome) string {
+			if out.Panicked {
+				return "handler panics"
+			}
+			installed := out.Final(recv+"."+f.Name()) != nil
+			nd := len(out.Effects(fname(oi.deliver)))
+			if installed != st.B("fwd") {
+				return fmt.Sprintf("gate=%v but snapshot installed=%v", st.B("fwd"), installed)
+			}
+			if (nd == 1) != st.B("fwd") || nd > 1 {
+				return fmt.Sprintf("gate=%v but handed to the deliver function %d times", st.B("fwd"), nd)
+			}
+			return ""
+		}, "snapshot installed and event handed on once ⇔ canForward; no other predicate (a branch on any other observer state is outside the fragment)")
+	}
+	if n < 2 {
+		c.Undecided(id, "marker-install", 0, "only %d handlers assign observer.currentSnapshot (SnapshotMarker and SeqNoAdvanced confirmed by hand)", n)
+	}
+}
